@@ -494,7 +494,7 @@ func (e *c11Env) second(done <-chan struct{}, cancel func(), responder string, a
 // c11ErrClass: the typed cause found in a returned error (errors.As), `other` for any untyped error, `ok` for nil.
 func c11ErrClass(err error) string {
 	switch c := c07ErrClass(err); c {
-	case "fail", "timeout", "pending":
+	case "err":
 		return "other"
 	default:
 		return c
